@@ -110,7 +110,7 @@ func (x *Xlat) load(st *State, p Place) *Term {
 	case PMapElem:
 		ks, vs := x.tm.SortOf(p.kt), x.tm.SortOf(p.vt)
 		h := x.get(st, mapValKey(ks, vs), ArrSort(SRef, ArrSort(ks, vs)))
-		hd := x.get(st, mapDomKey(ks), ArrSort(SRef, ArrSort(ks, SBool)))
+		hd := x.get(st, mapDomKey(ks, vs), ArrSort(SRef, ArrSort(ks, SBool)))
 		return Ite(Sel(Sel(hd, p.m), p.key), Sel(Sel(h, p.m), p.key), x.tm.Zero(p.vt))
 	case PField:
 		pv := x.load(st, p.parent)
@@ -229,7 +229,7 @@ func (x *Xlat) store(st *State, out *Outcomes, p Place, v *Term, pos token.Pos) 
 		vk := mapValKey(ks, vs)
 		hv := x.get(st, vk, ArrSort(SRef, ArrSort(ks, vs)))
 		x.set(st, vk, Sto(hv, p.m, Sto(Sel(hv, p.m), p.key, x.coerce(v, p.vt))))
-		dk := mapDomKey(ks)
+		dk := mapDomKey(ks, vs)
 		hd := x.get(st, dk, ArrSort(SRef, ArrSort(ks, SBool)))
 		was := Sel(Sel(hd, p.m), p.key)
 		hl := x.get(st, mapLenKey, ArrSort(SRef, SInt))
@@ -685,7 +685,7 @@ func (x *Xlat) evalMulti(st *State, fr *Frame, out *Outcomes, e ast.Expr) []*Ter
 			k := x.coerce(x.eval(st, fr, out, e.Index), mt.Key())
 			v := x.load(st, PMapElem{m, k, mt.Key(), mt.Elem()})
 			ks := x.tm.SortOf(mt.Key())
-			hd := x.get(st, mapDomKey(ks), ArrSort(SRef, ArrSort(ks, SBool)))
+			hd := x.get(st, mapDomKey(ks, x.tm.SortOf(mt.Elem())), ArrSort(SRef, ArrSort(ks, SBool)))
 			return []*Term{v, Sel(Sel(hd, m), k)}
 		}
 	}
@@ -943,7 +943,7 @@ func (x *Xlat) evalElt(st *State, fr *Frame, out *Outcomes, e ast.Expr, t types.
 
 func (x *Xlat) initMap(st *State, m *Term, mt *types.Map) {
 	ks, vs := x.tm.SortOf(mt.Key()), x.tm.SortOf(mt.Elem())
-	dk := mapDomKey(ks)
+	dk := mapDomKey(ks, vs)
 	hd := x.get(st, dk, ArrSort(SRef, ArrSort(ks, SBool)))
 	empty := App("(as const "+ArrSort(ks, SBool)+")", ArrSort(ks, SBool), TFalse)
 	x.set(st, dk, Sto(hd, m, empty))
